@@ -41,8 +41,8 @@ RowOf(f, id, k) == IF f = "gen" THEN GenRow(id, k) ELSE LevOfId(id, k)
 Mat == [i \in 1..Len(rows) |-> RowOf(fam, rows[i], n)]
 
 (* ---- right-hand sides ---- *)
-B1 == <<1, 2, -1, 3, -2, 1>>
-B2 == <<0, 1, 1, -2, 2, -1>>
+B1 == <<1, 2, -1, 3, -2, 1, 2, -3>>
+B2 == <<0, 1, 1, -2, 2, -1, 3, 1>>
 XT == <<1, -1, 2, -2>>
 BVec(k) == IF k = 1 THEN [i \in 1..m |-> B1[i]]
            ELSE IF k = 2 THEN [i \in 1..m |-> B2[i]]
@@ -65,11 +65,20 @@ Cat(d, v) ==
                       ELSE [band |-> 1, C |-> << <<4, -1, 0, 0>>, <<-1, 4, -1, 0>>, <<0, -1, 4, -1>>, <<0, 0, -1, 4>> >>])
   ELSE [band |-> 1, C |-> << <<3, 1, 0, 0, 0>>, <<1, 3, 1, 0, 0>>, <<0, 1, 3, 1, 0>>, <<0, 0, 1, 3, 1>>, <<0, 0, 0, 1, 3>> >>]
 
+(* wide-band blocks (dim 6..8, band 2..4): diagonally dominant, hence positive definite;      *)
+(* their adjugate is not computed (8! terms): W = <<>> and det = 0 tell the harness to apply   *)
+(* inv(C) through its own dense Cholesky factor, which it verifies against C                   *)
+BigC(d, w) == [i \in 1..d |-> [j \in 1..d |-> IF i = j THEN 10 + (i % 3)
+                                              ELSE IF Abs(i - j) <= w THEN (IF (i + j) % 3 = 0 THEN -1 ELSE 1) ELSE 0]]
+BigBlock(d, w) == [dim |-> d, band |-> w, C |-> BigC(d, w), W |-> <<>>, det |-> 0]
+
 RECURSIVE Comp(_)
 Comp(k) == IF k = 0 THEN {<<>>}
            ELSE UNION {{<<d>> \o c : c \in Comp(k - d)} : d \in 1..Min2(k, 5)}
-Layouts(k) == Comp(k) \X (0..2)          \* composition of the rows into blocks x variant selector
+Layouts(k) == IF k <= 5 THEN Comp(k) \X (0..2)          \* composition of the rows into blocks x variant selector
+              ELSE {<<<<k>>, w>> : w \in 2..4} \cup {<<<<k - 1, 1>>, w>> : w \in 2..3} \cup {<<<<2, k - 2>>, 3>>}    \* wide band blocks
 Blocks(l) == [k \in 1..Len(l[1]) |->
+               IF l[1][k] >= 6 THEN BigBlock(l[1][k], l[2]) ELSE IF l[1][k] = 5 /\ l[2] >= 3 THEN BigBlock(5, l[2]) ELSE
                LET c == Cat(l[1][k], l[2] + k) IN
                [dim |-> l[1][k], band |-> c.band, C |-> c.C,
                 W |-> Adjugate(c.C), det |-> Det(c.C)]]
@@ -87,6 +96,7 @@ Init == /\ phase = "rows"
         /\ n \in NSet
         /\ m \in MSet
         /\ (fam = "lev" => n >= 2)
+        /\ (fam = "gen" => m <= 5)          \* many observations (wide band blocks): levelling rows only
         /\ rows = <<>> /\ b = <<>> /\ lay = <<>> /\ S = {}
 
 AddRow == /\ phase = "rows" /\ Len(rows) < m
@@ -168,7 +178,7 @@ CertSound ==
        /\ Rank(A) + Len(G) = n
        /\ \A k \in 1..Len(Blocks(lay)) :
             LET B == Blocks(lay)[k] IN
-            /\ IsSPD(B.C)
-            /\ MatMul(B.C, B.W) = Scale(B.det, Identity(B.dim))
+            /\ (B.det # 0 => IsSPD(B.C) /\ MatMul(B.C, B.W) = Scale(B.det, Identity(B.dim)))
+            /\ (B.det = 0 => IsSymmetric(B.C) /\ \A i \in 1..B.dim : B.C[i][i] > SumN([j \in 1..B.dim |-> IF j = i THEN 0 ELSE Abs(B.C[i][j])], B.dim))
             /\ \A i, j \in 1..B.dim : Abs(i - j) > B.band => B.C[i][j] = 0
 =============================================================================
